@@ -352,6 +352,20 @@ Proof.
   rewrite Hrun, prob_ret, Hrows. symmetry. apply Hh. exact Hst.
 Qed.
 
+(* the hypothesis on h above is met by the indicator computed from the deterministic run *)
+Lemma rows_h_canon : forall (F : list row -> bool) kept K,
+  first_stop g (ttk kept) i0 r0 tmin tmax K ->
+  prob (fun o => F (so_rows (o_sim o)))
+       (law (discrete_SIR g (det_rules (ttk kept) (fun _ _ => O)) None ord (Some i0) r0o None tmin tmax false fuel)) ==
+  if F (l1_rows g (ttk kept) i0 r0 tmin K) then 1 else 0.
+Proof.
+  intros F kept K HK.
+  destruct (dsir_bfs g (ttk kept) (fun _ _ => O) ord i0 r0o tmin tmax false fuel Hwf Hord Hfuel)
+    as [K' [out [Hst [Hrun [Hrows _]]]]].
+  rewrite (first_stop_unique g (ttk kept) i0 r0 tmin tmax K K' HK Hst).
+  rewrite Hrun, prob_ret, Hrows. reflexivity.
+Qed.
+
 (* the run returns with probability 1 *)
 Lemma dsir_mass_one :
   prob (fun _ => true) (law (basic_discrete_SIR g p ord (Some i0) r0o None tmin tmax false fuel)) == 1.
